@@ -614,9 +614,10 @@ def param_default(fn, name):
     return None
 
 
-def bind_call(call, fn, skip_self=False):
+def bind_call(call, fn, skip_self=False, partial=False):
     """Map callee parameter name -> argument expr for a resolved call site.
-    Returns None if *args/**kwargs make the binding unknown."""
+    Returns None if *args/**kwargs make the binding unknown (with partial=True the
+    explicit bindings are returned and '*' / '**' map to the starred expressions)."""
     a = fn.args
     pos = [x.arg for x in a.posonlyargs + a.args]
     if skip_self and pos and pos[0] in ("self", "cls"):
@@ -624,13 +625,19 @@ def bind_call(call, fn, skip_self=False):
     out = {}
     for i, arg in enumerate(call.args):
         if isinstance(arg, ast.Starred):
-            return None
+            if not partial:
+                return None
+            out["*"] = arg.value
+            break
         if i < len(pos):
             out[pos[i]] = arg
         elif not a.vararg:
             return None
     for k in call.keywords:
         if k.arg is None:
-            return None
+            if not partial:
+                return None
+            out["**"] = k.value
+            continue
         out[k.arg] = k.value
     return out
